@@ -422,6 +422,12 @@ def fmt_struct(td, scratch, opt):
     return TensorDict.from_struct_array(td.to_struct_array())
 
 
+def misaligned_entries(td):
+    """entries whose memory does not start at a multiple of their element size (reading such a tensor is undefined behaviour:
+    torch's vectorised kernels fault on it) -- a property of the result, no address is compared or reported"""
+    return [k for k, v in td.items() if isinstance(v, torch.Tensor) and not v.is_nested and v.numel() and v.data_ptr() % v.element_size()]
+
+
 FORMATS = {
     # name: (function, fields carried by the format in addition to keys / dtypes / shapes / values)
     "pickle": (fmt_pickle, {"bs", "nested_bs", "names", "dev", "locked", "type"}),
